@@ -149,7 +149,7 @@ Qed.
 
 Definition defer_clause (s:stmt) : Prop :=
   match s with
-  | Defer d body => forall lp, wfd_block false false false true body = true ->
+  | Defer d body => forall N lp, wfd_block false false false N body = true ->
                     clo_good (fun y => rstmts lp body [] None (emit (EvU d) y)) d
   | _ => True
   end.
@@ -165,10 +165,10 @@ Proof.
   - (* Emit *) intro k. split; [|exact I]. intros. cbn [rstmt].
     exists st. split; [apply bal_emit; reflexivity | auto].
   - (* Defer *) intros d b IH. split; [intros; cbn [rstmt]; apply good_here|].
-    intros lp Hw y st. split.
+    intros N lp Hw y st. split.
     + eapply good_pre; [apply (bal_emit (EvU d) y (d :: st) st); simpl; rewrite Nat.eqb_refl; reflexivity|].
-      exact (IH false false false true lp [] [] None (emit (EvU d) y) st Hw (Forall2_nil _)).
-    + pose proof (proj1 (proj2 outcomes_allowed) b false false false true lp [] None (emit (EvU d) y) Hw (Forall_nil _)) as Ha.
+      exact (IH false false false N lp [] [] None (emit (EvU d) y) st Hw (Forall2_nil _)).
+    + pose proof (proj1 (proj2 outcomes_allowed) b false false false N lp [] None (emit (EvU d) y) Hw (Forall_nil _)) as Ha.
       cbn [allowed_fin] in Ha. apply allowed_none_benign in Ha. exact Ha.
   - (* Close *) intro ks. split; [|exact I]. intros. cbn [rstmt]. apply good_here.
   - (* Do *) intros b IH. split; [|exact I]. intros L D F N lp x st H. cbn [rstmt wfd_stmt] in *.
@@ -233,9 +233,9 @@ Proof.
       - eapply good_any_out; [exact Ha | intros [Hx _]; apply Hx; reflexivity].
       - eapply good_any_out; [exact Ha | intros [_ Hx]; apply Hx; reflexivity]. }
     destruct s; try exact Hgen; cbn [rstmts].
-    + (* Defer *) cbn [wfd_stmt] in Hs. apply andb_true_iff in Hs as [_ Hb].
+    + (* Defer *) cbn [wfd_stmt] in Hs. pose proof Hs as Hb.
       eapply good_pre; [apply (bal_emit (EvG d) x (ls ++ st) (d :: ls ++ st)); reflexivity|].
-      apply (IHr L D F N lp _ (d :: ls) fin _ st Hr). constructor; [exact (IHd lp Hb) | assumption].
+      apply (IHr L D F N lp _ (d :: ls) fin _ st Hr). constructor; [exact (IHd N lp Hb) | assumption].
     + (* Close *) cbn [wfd_stmt] in Hs. discriminate.
   - (* CNil *) intros L D F N lp d v x st _ Hd. cbn [rcases]. apply Hd.
   - (* CCons *) intros b IHb ft r IHr L D F N lp d v x st H Hd. cbn [rcases wfd_cases] in *.
